@@ -30,7 +30,7 @@ Definition decode_binary (oid : Z) (v : bytes) : option dval :=
 
 Definition copy_signature : bytes := [x50; x47; x43; x4f; x50; x59; x0a; xff; x0d; x0a; x00].
 
-Inductive rowres := RRow (vs : list dval) | REnd | RFail.
+Inductive rowres := CRow (vs : list dval) | CEnd | CFail.
 
 (* the fields of one row, for the remaining column OIDs *)
 Fixpoint read_fields (L : Z) (oids : list Z) (segs : list bytes) : option (list dval) * list bytes :=
@@ -80,10 +80,10 @@ Definition header_segs (started : bool) (e : ending) (segs : list bytes) : optio
 
 (* BinaryCopyReader.Read *)
 Definition read_row (L : Z) (oids : list Z) (e : ending) (s : bstate) : rowres * bstate :=
-  let at_end := match e with EDone => REnd | EAbort => RFail end in
+  let at_end := match e with EDone => CEnd | EAbort => CFail end in
   if b_over s then (at_end, s) else
   match header_segs (b_started s) e (b_segs s) with
-  | None => (RFail, {| b_segs := b_segs s; b_started := true; b_over := true |})
+  | None => (CFail, {| b_segs := b_segs s; b_started := true; b_over := true |})
   | Some segs =>
       match read_full 1 segs with
       | None => (at_end, {| b_segs := segs; b_started := true; b_over := true |})
@@ -92,12 +92,12 @@ Definition read_row (L : Z) (oids : list Z) (e : ending) (s : bstate) : rowres *
           | Some ([a; b], segs1) =>
               let fields := rd16 a b in
               if fields =? 65535 then (at_end, {| b_segs := segs1; b_started := true; b_over := true |})
-              else if negb (fields =? lenZ oids) then (RFail, {| b_segs := segs1; b_started := true; b_over := false |})
+              else if negb (fields =? lenZ oids) then (CFail, {| b_segs := segs1; b_started := true; b_over := false |})
               else match read_fields L oids segs1 with
-                   | (Some vs, segs2) => (RRow vs, {| b_segs := segs2; b_started := true; b_over := false |})
-                   | (None, segs2) => (RFail, {| b_segs := segs2; b_started := true; b_over := false |})
+                   | (Some vs, segs2) => (CRow vs, {| b_segs := segs2; b_started := true; b_over := false |})
+                   | (None, segs2) => (CFail, {| b_segs := segs2; b_started := true; b_over := false |})
                    end
-          | _ => (RFail, {| b_segs := segs; b_started := true; b_over := true |})
+          | _ => (CFail, {| b_segs := segs; b_started := true; b_over := true |})
           end
       end
   end.
@@ -105,10 +105,10 @@ Definition read_row (L : Z) (oids : list Z) (e : ending) (s : bstate) : rowres *
 (* a handler that reads until end-of-stream or the first error *)
 Fixpoint read_all (fuel : nat) (L : Z) (oids : list Z) (e : ending) (s : bstate) : list (list dval) * rowres :=
   match fuel with
-  | O => ([], RFail)
+  | O => ([], CFail)
   | S f =>
       match read_row L oids e s with
-      | (RRow vs, s') => let (rows, fin) := read_all f L oids e s' in (vs :: rows, fin)
+      | (CRow vs, s') => let (rows, fin) := read_all f L oids e s' in (vs :: rows, fin)
       | (r, _) => ([], r)
       end
   end.
